@@ -524,3 +524,19 @@ func init() {
 	mutant("decode-error-branch-inverted", "error-polarity", "serverConn.go", "		b, err = sc.dec.nextField(hf, strm.blockFields == 0, strm.blockFields, b)\n		if err != nil {", "		b, err = sc.dec.nextField(hf, strm.blockFields == 0, strm.blockFields, b)\n		if err == nil {")
 	mutant("client-handshake-error-ignored", "error-polarity", "conn.go", "	if err = Handshake(true, c.bw, &c.current, c.maxWindow-65535); err != nil {", "	if err = Handshake(true, c.bw, &c.current, c.maxWindow-65535); err == nil {")
 }
+
+func init() {
+	mutant("refused-stream-not-told", "server-loop-shape", "serverConn.go", "					sc.writeReset(fr.Stream(), RefusedStreamError)\n", "")
+	mutant("highest-accepted-id-not-recorded", "server-loop-shape", "serverConn.go", "					sc.lastID = fr.Stream()\n", "")
+	mutant("closing-test-disjunction", "server-loop-shape", "serverConn.go", "			if wasClosing && canCloseAfterGoAway() {", "			if wasClosing || canCloseAfterGoAway() {")
+	mutant("length-mismatch-needs-no-declaration", "server-loop-shape", "serverConn.go", "				if strm.hasContentLength && strm.recvBody != strm.contentLength {", "				if strm.hasContentLength || strm.recvBody != strm.contentLength {")
+	mutant("goaway-reference-not-recorded", "server-loop-shape", "serverConn.go", "		atomic.StoreUint32(&sc.closeRef, sc.lastID)\n", "")
+	mutant("stream-error-not-answered", "server-loop-shape", "serverConn.go", "		sc.writeReset(strm.ID(), streamErr.Code())\n", "")
+	mutant("incomplete-block-counts-as-finished", "server-loop-shape", "serverConn.go", "			strm.headersFinished = len(strm.previousHeaderBytes) == 0", "			strm.headersFinished = len(strm.previousHeaderBytes) >= 0")
+	mutant("pseudo-header-presence-conjunction", "server-loop-shape", "serverConn.go", "	if !strm.pseudoMethod || !strm.pseudoScheme || !strm.pseudoPath {", "	if !strm.pseudoMethod && !strm.pseudoScheme || !strm.pseudoPath {")
+	mutant("zero-window-increment-accepted", "server-loop-shape", "serverConn.go", "		if win == 0 {\n			return NewGoAwayError(ProtocolError, \"window increment of 0\")\n		}\n", "")
+	mutant("content-length-marker-unset", "server-loop-shape", "serverConn.go", "			strm.hasContentLength = true\n", "")
+	mutant("te-rule-disjunction", "server-loop-shape", "serverConn.go", "		if bytes.Equal(k, StringTE) && !bytes.Equal(v, StringTrailers) {", "		if bytes.Equal(k, StringTE) || !bytes.Equal(v, StringTrailers) {")
+	mutant("response-headers-without-end-headers", "server-loop-shape", "serverConn.go", "	h.SetEndHeaders(true)\n	h.SetEndStream(!hasBody)", "	h.SetEndStream(!hasBody)")
+	mutant("buffered-body-not-registered", "server-loop-shape", "serverConn.go", "		strm.pendingData = ctx.Response.Body()\n", "")
+}
